@@ -12,6 +12,7 @@ structure St where
   done    : Nat := 0                                -- number of blocks already scanned by the wallet
   rs      : Option State := none                    -- wallet-side recovery/persistent state
   batch   : Nat := 2000
+  tainted : Bool := false   -- an injected FilterBlocks failure fired: in-process retry is outside the model (finding)
 
 def noInvalid : BranchId → List Nat := fun _ => []
 
@@ -66,6 +67,7 @@ def persistEq (s : St) (a b : State) : Bool := showState s a == showState s b
 
 def step (s : St) (line : String) : St × String :=
   let t := words line
+  if s.tainted && t.head? != some "rinit" && (t.head?.map (·.startsWith "r")).getD false then (s, "tainted") else
   match t with
   | "bnew" :: rest =>
     match natOf rest "w" with
@@ -95,7 +97,7 @@ def step (s : St) (line : String) : St × String :=
   | ["bst"] => (s, showBranch s.br)
   | "rinit" :: rest =>
     match (kv rest "scopes").bind natList?, natOf rest "batch" with
-    | some scopes, some batch => ({ s with scopes := scopes, blocks := [], done := 0, rs := none, batch := batch }, "ok")
+    | some scopes, some batch => ({ s with scopes := scopes, blocks := [], done := 0, rs := none, batch := batch, tainted := false }, "ok")
     | _, _ => (s, "bad-op")
   | "rblk" :: rest =>
     match (kv rest "txs").map (fun x => (splitOn1 x ";").mapM parseTx) with
@@ -107,7 +109,9 @@ def step (s : St) (line : String) : St × String :=
       if s.rs.isSome then (s, "bad-op") else
       let st := recover noInvalid w s.batch s.scopes s.blocks (fun _ => false)
       let st' := recover noInvalid w s.batch s.scopes s.blocks (fun _ => true)
-      if persistEq s st st' then ({ s with rs := some st, done := s.blocks.length }, showState s st)
+      let failat := (natOf rest "failat").getD 0
+      if failat != 0 && failat ≤ st.calls then ({ s with tainted := true }, "retried-after-failure")
+      else if persistEq s st st' then ({ s with rs := some st, done := s.blocks.length }, showState s st)
       else (s, "model-cuts-differ")
     | none => (s, "bad-op")
   | "rrestart" :: rest =>
@@ -117,7 +121,9 @@ def step (s : St) (line : String) : St × String :=
       let new := s.blocks.drop s.done
       let run := fun (cuts : Nat → Bool) => recoverChain noInvalid s.batch (new.length + 1) (resurrect noInvalid st0) new cuts 0
       let st := run (fun _ => false)
-      if persistEq s st (run (fun _ => true)) then ({ s with rs := some st, done := s.blocks.length }, showState s st)
+      let failat := (natOf rest "failat").getD 0
+      if failat != 0 && failat ≤ st.calls - st0.calls then ({ s with tainted := true }, "retried-after-failure")
+      else if persistEq s st (run (fun _ => true)) then ({ s with rs := some st, done := s.blocks.length }, showState s st)
       else (s, "model-cuts-differ")
     | _, _ => (s, "bad-op")
   | ["rstate"] =>
